@@ -176,7 +176,8 @@ func (BridgeEngine) GenConfig(rng *rand.Rand, prop string, tier string) RunConfi
 		"claim": 30, "confirm": 20, "send": 8, "cancel": 3, "incfee": 3, "batch": 5, "callout": 4, "exec": 8,
 		"ext-event": 10, "ext-height": 6, "relay": 6, "churn": 4, "gov": 2, "empty": 4, "jump": 1, "adv": 3,
 	}
-	for k, v := range base {
+	for _, k := range sortedKeys(base) {
+		v := base[k]
 		f := []int{1, 1, 1, 2, 4}[rng.IntN(5)]
 		if rng.IntN(2) == 0 {
 			rc.Weights[k] = v * f
